@@ -137,8 +137,12 @@ func Run(run *report.Run, childTest, part string, n int, timeout time.Duration, 
 			mu.Lock()
 			defer mu.Unlock()
 			if res == nil {
-				logPath := fmt.Sprintf("/verif/replays/%s-%s-shard%d-crash.log", run.ID, part, i)
-				_ = os.MkdirAll("/verif/replays", 0o755)
+				vd := os.Getenv("VERIF_DIR")
+				if vd == "" {
+					vd = "/verif"
+				}
+				logPath := fmt.Sprintf("%s/replays/%s-%s-shard%d-crash.log", vd, run.ID, part, i)
+				_ = os.MkdirAll(vd+"/replays", 0o755)
 				_ = os.WriteFile(logPath, outb.Bytes(), 0o644)
 				kind := crashKind(outb.String())
 				if kind == "watchdog" {
